@@ -109,7 +109,7 @@ def run(ck):
                 return i
         return None
 
-    def check_order(name, before, after, what):
+    def check_order(name, before, after, what, missing_after_is_violation=False):
         fn = facts.fn(P + name)
         n = 0
         for p in summaries[name]:
@@ -124,11 +124,16 @@ def run(ck):
                 ck.ok("B2.order", fn.where(p.line), "%s: %s" % (name, what))
             else:
                 ck.violation("B2.order", "B2|%s|%s" % (name, what.replace(" ", "_")), fn.where(p.line), "%s: violated order: %s (ops on this path: %s)" % (name, what, p.seq))
+        if n == 0 and missing_after_is_violation:
+            ck.violation("B2.order", "B2|%s|%s|never-consulted" % (name, what.replace(" ", "_")), fn.where(),
+                         "%s: no returning path performs the second operation of '%s' any more: the decision is taken on a different variable "
+                         "(readers lags behind readLevel while a reader is between its announcement and its increment)" % (name, what))
+            return
         ck.need(n >= 1, "C54: order rule '%s' matched no path in %s" % (what, name))
 
     check_order("lockShared", lambda s: s == ("inc", "readLevel"), lambda s: s in (("read", "writeLevel"), ("read", "appending")), "++readLevel before reading writeLevel/appending")
     for name in ("lockExclusive", "unlockSharedAndSwitchToExclusive"):
-        check_order(name, lambda s: s == ("inc", "writeLevel"), lambda s: s == ("read", "readLevel"), "writeLevel++ before reading readLevel")
+        check_order(name, lambda s: s == ("inc", "writeLevel"), lambda s: s == ("read", "readLevel"), "writeLevel++ before reading readLevel", missing_after_is_violation=True)
         fn = facts.fn(P + name)
         tested = False
         for b in fn.blocks.values():
@@ -144,6 +149,12 @@ def run(ck):
         else:
             ck.violation("B2.rmw-result-tested", "B2|%s|rmw-result" % name, fn.where(), "%s no longer decides on the result of the writeLevel++ RMW itself (separate read => check-then-act race)" % name)
     check_order("finalizeExclusive", lambda s: s == ("read", "readLevel"), lambda s: s == ("set", "writing"), "readLevel read before writing=true")
+    # and that read must be the branch condition guarding writing = true (not merely an assert)
+    fe = facts.fn(P + "finalizeExclusive")
+    fle = ck.flow(fe)
+    setw = lambda ev: ev.get("e") == "call" and E.strip(ev["x"]).get("f", "").endswith("operator=") and E.m_is_mem("writing")(E.strip(ev["x"]).get("o")) and E.const(E.strip(ev["x"])["a"][0]) == 1
+    ck.require_fact("B2.exclusive-needs-no-announced-reader", fle, setw, E.m_is_mem("readLevel"), False, "writing = true",
+                    why="(a reader that announced itself via ++readLevel but has not yet incremented readers would coexist with the writer)")
     check_order("switchExclusiveToShared", lambda s: s == ("inc", "readLevel"), lambda s: s == ("set", "writing"), "++readLevel before writing=false")
     check_order("switchExclusiveToShared", lambda s: s == ("inc", "readers"), lambda s: s == ("set", "writing"), "++readers before writing=false")
     check_order("lockHeaders", lambda s: s == ("inc", "readers"), lambda s: s == ("tas", "updating"), "shared lock before updating.test_and_set")
